@@ -204,3 +204,12 @@ pub fn read_replay(path: &Path) -> Value {
     let t = std::fs::read_to_string(path).expect("read replay file");
     serde_json::from_str(&t).expect("replay json")
 }
+
+/// Figures of the last `ctesim selftest` (run by bin/setup), copied into evidence files.
+pub fn selftest_summary() -> Value {
+    let p = verif_dir().join("evidence").join("selftest.json");
+    std::fs::read_to_string(p)
+        .ok()
+        .and_then(|t| serde_json::from_str(&t).ok())
+        .unwrap_or_else(|| json!("selftest has not been run (bin/setup runs it)"))
+}
